@@ -345,17 +345,29 @@ func poolProbes(r *vf.Run, n, c int) []meas {
 		}
 		out = append(out, m)
 	}
-	// endorseDone
-	{
-		blk := uint32(b0 + 20)
-		m := meas{Fn: "BlockPool.endorseDone", Shape: "endorse-msgs-from-distinct-peers", T: -1, K: -1}
-		for peer := 2; peer <= n; peer++ {
-			vp.AddEndorse(uint32(peer), 1, blk, blockHash, false, sigOf(peer-1))
+	// endorseDone: the number of endorsements for the proposer it declares
+	for si, sh := range []struct {
+		name   string
+		filler bool
+		empty  bool
+	}{{"endorse-msgs-from-distinct-peers", false, false}, {"one-endorsement-for-another-proposer-first", true, false}, {"empty-endorse-msgs-from-distinct-peers", false, true}, {"empty-endorse-msgs-after-one-endorsement-for-another-proposer", true, true}} {
+		blk := uint32(b0 + 20 + si)
+		m := meas{Fn: "BlockPool.endorseDone", Shape: sh.name, T: -1, K: -1}
+		forP := map[uint32]int{}
+		last := n
+		if sh.filler {
+			vp.AddEndorse(uint32(n), 2, blk, blockHash, false, sigOf(n-1))
+			forP[2]++
+			last = n - 1
+		}
+		for peer := 3; peer <= last; peer++ {
+			vp.AddEndorse(uint32(peer), 1, blk, blockHash, sh.empty, sigOf(peer-1))
+			forP[1]++
 			r.Add("probes_pool_endorseDone", 1)
 			p, _, done := vp.EndorseDone(blk, uint32(c))
-			if done && p == 1 && m.T < 0 {
-				m.K, m.T = peer-1, peer-1
-				m.Wit = fmt.Sprintf("endorse msgs for proposer 1 from peers 2..%d", peer)
+			if done {
+				m.K, m.T = forP[p], forP[p]
+				m.Wit = fmt.Sprintf("endorseDone declared proposer %d after %d endorsement(s) for it (endorse msgs for proposer 1 from peers 3..%d, forEmpty=%v, filler for proposer 2 from peer %d: %v)", p, forP[p], peer, sh.empty, n, sh.filler)
 				break
 			}
 		}
@@ -785,7 +797,7 @@ func main() {
 			if m.Fn == "BlockPool.endorseDone" {
 				r.Add("oracle_endorse_checked", 1)
 				if m.T >= 0 && m.T < c+1 {
-					r.Violation("endorse-threshold-below-C+1", fmt.Sprintf("N=%d C=%d: endorseDone after %d endorsements", n, c, m.T), map[string]interface{}{"N": n, "C": c, "m": m})
+					r.Violation("endorse-threshold-below-C+1:"+m.Shape, fmt.Sprintf("N=%d C=%d: endorseDone after %d endorsements", n, c, m.T), map[string]interface{}{"N": n, "C": c, "m": m})
 				}
 				continue
 			}
